@@ -610,6 +610,12 @@ func (in *Interp) conv(dst, src types.Type, x Value) Value {
 	if _, ok := ud.(*types.Pointer); ok {
 		return x
 	}
+	if b, ok := ud.(*types.Basic); ok && b.Kind() == types.UnsafePointer {
+		return x
+	}
+	if b, ok := us.(*types.Basic); ok && b.Kind() == types.UnsafePointer {
+		return x
+	}
 	if dk == kOther && sk == kOther {
 		return x
 	}
